@@ -63,3 +63,16 @@ Definition same_set (a b: list pred) := subset a b && subset b a.
 (* the property: a type needs nothing but "this child (or its output) is Send", resp. Sync *)
 Definition only_children (send: bool) (ps: list pred) : bool :=
   forallb (fun x => match fst x with ANever _ => false | _ => Bool.eqb (snd x) send end) ps.
+
+(* one row of the table the translator generates from the source: a type of the crate, a trait (send = true: Send, false: Sync), its field
+   structure, and what rustc synthesized for it (polarity, where-clause predicates, and whether those could be read completely) *)
+Record entry := mk_entry { e_id : nat; e_name : string; e_send : bool; e_ty : ty; e_neg : bool; e_rustc : list pred; e_parsed : bool }.
+Definition has_never (ps: list pred) : bool := existsb (fun x => match fst x with ANever _ => true | _ => false end) ps.
+(* the Coq rule table and rustc agree on this type: same polarity and - when rustc's where-clauses were read completely - the same predicate set *)
+Definition agrees (e: entry) : bool :=
+  let ps := needs (e_send e) (e_ty e) in
+  if e_neg e then has_never ps
+  else negb (has_never ps) && (negb (e_parsed e) || same_set ps (e_rustc e)).
+(* ... and the type satisfies the property: it needs nothing but "child / child output is Send" (resp. Sync), rustc's impl is positive *)
+Definition entry_ok (e: entry) : bool :=
+  agrees e && negb (e_neg e) && only_children (e_send e) (needs (e_send e) (e_ty e)) && only_children (e_send e) (e_rustc e).
